@@ -11,6 +11,7 @@ pub mod tables;
 
 pub mod elem;
 pub mod emit;
+mod emit_safe;
 pub mod kern;
 pub mod mem;
 pub mod oracle;
